@@ -134,7 +134,7 @@ func TestRouting(t *testing.T) {
 		if rapid.IntRange(0, 3).Draw(t, "recreated") == 0 {
 			stale = rapid.SampledFrom([]int{1, 2, 3, 4, 5, 8, 16}).Filter(func(x int) bool { return x != n }).Draw(t, "stale_partitions")
 		}
-		sim, err := simkv.New(simkv.Options{Engine: engine, Partitions: n, Hosted: hosted, StaleCreate: stale})
+		sim, err := simkv.New(simkv.Options{Engine: engine, Partitions: n, Hosted: hosted, StaleCreate: stale, ExpPolicy: rapid.SampledFrom([]string{"wait_compact", "local_deletion"}).Draw(t, "policy")})
 		if err != nil {
 			t.Fatalf("HARNESS: %v", err)
 		}
